@@ -306,11 +306,13 @@ Fixpoint replay_loop (rows : list frame) (gfb gfe : Z) : M (Z * Z) :=
   | r :: rows' =>
       if is_session_type (f_type r) then replay_loop rows' gfb (f_seq r + 1)
       else
-        (if gfb <? gfe then send_msg (mkF TSeqReset gfb false gfe 1) else ret tt) ;;;
+        (* numbers missing in the journal before this message are gap filled too (repair of D21) *)
+        let gfe' := if gfb <? f_seq r then f_seq r else gfe in
+        (if gfb <? gfe' then send_msg (mkF TSeqReset gfb false gfe' 1) else ret tt) ;;;
         (* replay_msg[PossDupFlag] = "Y" on a journaled PossDup copy: DuplicatedTagError *)
         (if f_pd r then raise XDupTag else ret tt) ;;;
         send_msg (mkF (f_type r) (f_seq r) true (f_a r) (f_b r)) ;;;
-        replay_loop rows' (f_seq r + 1) gfe
+        replay_loop rows' (f_seq r + 1) gfe'
   end.
 
 (* _process_resend: the journal and the counters are not touched (repair of D12) *)
@@ -325,7 +327,9 @@ Definition process_resend (f : frame) : M unit :=
   let current := nout w in
   g <- replay_loop rows b b ;;
   assert_ (snd g <=? current) ;;;
-  (if fst g <? current then send_msg (mkF TSeqReset (fst g) false current 1) else ret tt) ;;;
+  (* the tail gap fill runs only up to the requested range *)
+  let last := Z.min current (e + 1) in
+  (if fst g <? last then send_msg (mkF TSeqReset (fst g) false last 1) else ret tt) ;;;
   w <- get ;;
   if cstate_eqb (st w) Awaiting then ret tt else set_st Active.
 
